@@ -938,6 +938,60 @@ fn fclass(o: &Option<String>) -> String {
     }
 }
 
+/// (footer X, no assertion) vs (no footer, assertion X), and for public tokens (empty message, footer X) vs (message X, no
+/// footer): an encoding that mishandles EMPTY pieces - possibly only on a large-input path - makes these authenticate alike
+pub fn piece_swaps(prop: &str, pools: &Pools, seed: u64, rsw: &mut Report) {
+    for &p in &ALL {
+        let key = pools.key(p, 0);
+        let mut rng = Rng::new(seed, "c05-swap", p as u64);
+        let x = "{\"kid\":\"swap-me\"}";
+        let big1 = "m".repeat(9000);
+        let big2 = format!("{{\"pad\":\"{}\"}}", "p".repeat(70_000));
+        for (layer, msg) in [(Layer::Core, JSON_MSG), (Layer::Generic, JSON_MSG), (Layer::Core, big1.as_str()), (Layer::Core, big2.as_str())] {
+            if p.has_assertion() {
+                // built with footer X and no assertion; presented WITHOUT the footer segment, expecting no footer, assertion X
+                if let Out::Ok(t) = seal_at(layer, p, &key, &mut rng, msg, Some(x), None) {
+                    let segs: Vec<&str> = t.split('.').collect();
+                    let bare = format!("{}.{}.{}", segs[0], segs[1], segs[2]);
+                    rsw.evaluations += 1;
+                    match open_any(layer, p, &key, &bare, None, Some(x)) {
+                        Out::Ok(_) => rsw.violation(format!("{} footer-accepted-as-assertion {}/{}", prop, p.name(), layer.name()), format!("{}/{}: a token built with footer {:?} and no assertion was ACCEPTED without its footer segment when {:?} was supplied as the implicit assertion", p.name(), layer.name(), x, x), json!({"cmd": prop, "note": "piece-swap case: re-run the check", "p": p.name()})),
+                        Out::Panic(l) => rsw.violation(format!("{} panic {}", prop, p.name()), format!("{}: panic {}", p.name(), l), json!({"cmd": prop, "note": "piece-swap case: re-run the check"})),
+                        _ => rsw.count("footer / neighbouring piece swaps refused"),
+                    }
+                }
+                // built with assertion X and no footer; presented with X spliced on as footer segment, expecting footer X, no assertion
+                if let Out::Ok(t) = seal_at(layer, p, &key, &mut rng, msg, None, Some(x)) {
+                    let spliced = format!("{}.{}", t.trim_end_matches('.'), util::b64(x.as_bytes()));
+                    rsw.evaluations += 1;
+                    match open_any(layer, p, &key, &spliced, Some(x), None) {
+                        Out::Ok(_) => rsw.violation(format!("{} assertion-accepted-as-footer {}/{}", prop, p.name(), layer.name()), format!("{}/{}: a footer-less token built with assertion {:?} was ACCEPTED under expected footer {:?} once that footer segment was spliced on", p.name(), layer.name(), x, x), json!({"cmd": prop, "note": "piece-swap case: re-run the check", "p": p.name()})),
+                        Out::Panic(l) => rsw.violation(format!("{} panic {}", prop, p.name()), format!("{}: panic {}", p.name(), l), json!({"cmd": prop, "note": "piece-swap case: re-run the check"})),
+                        _ => rsw.count("footer / neighbouring piece swaps refused"),
+                    }
+                }
+            }
+        }
+        if !p.is_local() {
+            // (empty message, footer X) re-read as (message X, no footer) under the same signature
+            if let Out::Ok(t) = core_seal(p, &key, &rng.bytes(32), "", Some(x), None).0 {
+                if let Some(parts) = crate::c03::parts(p, &t) {
+                    let mut payload2 = x.as_bytes().to_vec();
+                    payload2.extend_from_slice(&parts.payload);
+                    let tok2 = format!("{}{}", p.header(), util::b64(&payload2));
+                    rsw.evaluations += 1;
+                    match open_any(Layer::Core, p, &key, &tok2, None, None) {
+                        Out::Ok(m) => rsw.violation(format!("{} footer-accepted-as-message {}", prop, p.name()), format!("{}: the signature over (empty message, footer {:?}) was ACCEPTED for (message {:?}, no footer); returned {:?}", p.name(), x, x, util::clip(&m, 60)), json!({"cmd": prop, "note": "piece-swap case: re-run the check", "p": p.name()})),
+                        Out::Panic(l) => rsw.violation(format!("{} panic {}", prop, p.name()), format!("{}: panic {}", p.name(), l), json!({"cmd": prop, "note": "piece-swap case: re-run the check"})),
+                        _ => rsw.count("footer / neighbouring piece swaps refused"),
+                    }
+                }
+            }
+        }
+    }
+    rsw.require("footer / neighbouring piece swaps refused", 20);
+}
+
 pub fn run_c05(tier: &str, seed: u64) -> Report {
     let thorough = tier == "thorough";
     let pools = Pools::new(seed, 8, 4);
@@ -1089,57 +1143,9 @@ pub fn run_c05(tier: &str, seed: u64) -> Report {
         }
     });
     total.merge(r);
-    // the footer and its NEIGHBOURING pieces must not be interchangeable: (footer X, no assertion) vs (no footer, assertion X),
-    // and for public tokens (empty message, footer X) vs (message X, no footer) - an encoding that mishandles EMPTY pieces
-    // makes these pairs authenticate alike
+    // the footer and its NEIGHBOURING pieces must not be interchangeable (small and LARGE messages)
     let mut rsw = Report::new();
-    for &p in &ALL {
-        let key = pools.key(p, 0);
-        let mut rng = Rng::new(seed, "c05-swap", p as u64);
-        let x = "{\"kid\":\"swap-me\"}";
-        for layer in [Layer::Core, Layer::Generic] {
-            if p.has_assertion() {
-                // built with footer X and no assertion; presented WITHOUT the footer segment, expecting no footer, assertion X
-                if let Out::Ok(t) = seal_at(layer, p, &key, &mut rng, JSON_MSG, Some(x), None) {
-                    let segs: Vec<&str> = t.split('.').collect();
-                    let bare = format!("{}.{}.{}", segs[0], segs[1], segs[2]);
-                    rsw.evaluations += 1;
-                    match open_any(layer, p, &key, &bare, None, Some(x)) {
-                        Out::Ok(_) => rsw.violation(format!("C05 footer-accepted-as-assertion {}/{}", p.name(), layer.name()), format!("{}/{}: a token built with footer {:?} and no assertion was ACCEPTED without its footer segment when {:?} was supplied as the implicit assertion", p.name(), layer.name(), x, x), json!({"cmd": "C05", "note": "piece-swap case: re-run the check", "p": p.name()})),
-                        Out::Panic(l) => rsw.violation(format!("C05 panic {}", p.name()), format!("{}: panic {}", p.name(), l), json!({"cmd": "C05", "note": "piece-swap case: re-run the check"})),
-                        _ => rsw.count("footer / neighbouring piece swaps refused"),
-                    }
-                }
-                // built with assertion X and no footer; presented with X spliced on as footer segment, expecting footer X, no assertion
-                if let Out::Ok(t) = seal_at(layer, p, &key, &mut rng, JSON_MSG, None, Some(x)) {
-                    let spliced = format!("{}.{}", t.trim_end_matches('.'), util::b64(x.as_bytes()));
-                    rsw.evaluations += 1;
-                    match open_any(layer, p, &key, &spliced, Some(x), None) {
-                        Out::Ok(_) => rsw.violation(format!("C05 assertion-accepted-as-footer {}/{}", p.name(), layer.name()), format!("{}/{}: a footer-less token built with assertion {:?} was ACCEPTED under expected footer {:?} once that footer segment was spliced on", p.name(), layer.name(), x, x), json!({"cmd": "C05", "note": "piece-swap case: re-run the check", "p": p.name()})),
-                        Out::Panic(l) => rsw.violation(format!("C05 panic {}", p.name()), format!("{}: panic {}", p.name(), l), json!({"cmd": "C05", "note": "piece-swap case: re-run the check"})),
-                        _ => rsw.count("footer / neighbouring piece swaps refused"),
-                    }
-                }
-            }
-        }
-        if !p.is_local() {
-            // (empty message, footer X) re-read as (message X, no footer) under the same signature
-            if let Out::Ok(t) = core_seal(p, &key, &rng.bytes(32), "", Some(x), None).0 {
-                if let Some(parts) = crate::c03::parts(p, &t) {
-                    let mut payload2 = x.as_bytes().to_vec();
-                    payload2.extend_from_slice(&parts.payload);
-                    let tok2 = format!("{}{}", p.header(), util::b64(&payload2));
-                    rsw.evaluations += 1;
-                    match open_any(Layer::Core, p, &key, &tok2, None, None) {
-                        Out::Ok(m) => rsw.violation(format!("C05 footer-accepted-as-message {}", p.name()), format!("{}: the signature over (empty message, footer {:?}) was ACCEPTED for (message {:?}, no footer); returned {:?}", p.name(), x, x, util::clip(&m, 60)), json!({"cmd": "C05", "note": "piece-swap case: re-run the check", "p": p.name()})),
-                        Out::Panic(l) => rsw.violation(format!("C05 panic {}", p.name()), format!("{}: panic {}", p.name(), l), json!({"cmd": "C05", "note": "piece-swap case: re-run the check"})),
-                        _ => rsw.count("footer / neighbouring piece swaps refused"),
-                    }
-                }
-            }
-        }
-    }
-    rsw.require("footer / neighbouring piece swaps refused", 12);
+    piece_swaps("C05", &pools, seed, &mut rsw);
     total.merge(rsw);
     // re-cut across a LENGTH PREFIX of the pre-authentication encoding: if lengths n and n+d shared an encoding, the bytes
     // `LE64(|F|) || F[..d-8]` could be moved from the footer into the message (or ciphertext) and the rest `F[d..]` presented
@@ -1258,7 +1264,7 @@ pub fn replay_c05(case: &Value) -> Report {
     r
 }
 
-pub const RULE_C05: &str = "8 protocols x 3 layers x footer catalogue (none, empty, 40 strings + 20 (thorough 300) seeded random ones; incl. prefix/extension pairs, case and whitespace variants, NUL suffix, NFC/NFD, strings whose base64 differs in the last character, strings that are themselves base64 or contain dots): a token is built with each footer F through that layer's builder and presented to that layer's parser with every expected footer F' of the catalogue; oracle: accept iff F' == F with none == empty (string equality in the harness). Plus swaps of the footer with its neighbouring pieces ((footer X, no assertion) presented as (no footer, assertion X) and vice versa; for public tokens (empty message, footer X) as (message X, no footer)). Plus a re-cut across a length prefix (the first d bytes of the footer, preceded by the footer's length field, are moved behind the message / ciphertext and the rest is presented as footer, d in {128, 256, 65536}: collides iff the PAE length encoding is not injective). Plus a footer LENGTH sweep (every length 0..=330 and 65535..65537: built, opened with the same footer, its one-byte-shorter prefix, its one-byte extension and same-length footers differing only in the last byte / last eight bytes). Plus parser sessions (the expected footer is changed between parses of one parser object) and 160 (thorough 2000) NESTED pairs of them (a second parser object is created, used and dropped in the middle of another one's session on the same thread; both must answer as alone). Plus the footer segment of every produced token compared with the harness's own base64url encoder, and edits of the segment (removed, emptied, replaced with and without matching expectation, extended, truncated, raw text, followed by further segments, added to a footer-less token with a matching, an empty and NO expectation). distinct_nontrivial = distinct (protocol, layer, built class, supplied class) for accepted pairs and (protocol, layer, case class, rejection variant) for rejected ones";
+pub const RULE_C05: &str = "8 protocols x 3 layers x footer catalogue (none, empty, 40 strings + 20 (thorough 300) seeded random ones; incl. prefix/extension pairs, case and whitespace variants, NUL suffix, NFC/NFD, strings whose base64 differs in the last character, strings that are themselves base64 or contain dots): a token is built with each footer F through that layer's builder and presented to that layer's parser with every expected footer F' of the catalogue; oracle: accept iff F' == F with none == empty (string equality in the harness). Plus swaps of the footer with its neighbouring pieces ((footer X, no assertion) presented as (no footer, assertion X) and vice versa; for public tokens (empty message, footer X) as (message X, no footer); small, 9 000-byte and 70 000-byte messages). Plus a re-cut across a length prefix (the first d bytes of the footer, preceded by the footer's length field, are moved behind the message / ciphertext and the rest is presented as footer, d in {128, 256, 65536}: collides iff the PAE length encoding is not injective). Plus a footer LENGTH sweep (every length 0..=330 and 65535..65537: built, opened with the same footer, its one-byte-shorter prefix, its one-byte extension and same-length footers differing only in the last byte / last eight bytes). Plus parser sessions (the expected footer is changed between parses of one parser object) and 160 (thorough 2000) NESTED pairs of them (a second parser object is created, used and dropped in the middle of another one's session on the same thread; both must answer as alone). Plus the footer segment of every produced token compared with the harness's own base64url encoder, and edits of the segment (removed, emptied, replaced with and without matching expectation, extended, truncated, raw text, followed by further segments, added to a footer-less token with a matching, an empty and NO expectation). distinct_nontrivial = distinct (protocol, layer, built class, supplied class) for accepted pairs and (protocol, layer, case class, rejection variant) for rejected ones";
 
 // ==========================================================================================
 // C06
@@ -1545,6 +1551,7 @@ pub fn run_c06(tier: &str, seed: u64) -> Report {
     rs.require("nested parser pairs: both answer as alone", 60);
     builder_reuse("C06", &pools, &mut rs);
     builder_assertion_changes(&pools, &mut rs);
+    piece_swaps("C06", &pools, seed, &mut rs);
     total.merge(rs);
     for &p in &protos {
         total.require(&format!("{}/generic session parses as expected", p.name()), 16);
@@ -1568,7 +1575,7 @@ pub fn replay_c06(case: &Value) -> Report {
     r
 }
 
-pub const RULE_C06: &str = "v3/v4 local/public x 3 layers x assertion catalogue (none, empty, 40 strings with near-miss pairs): a token is built with assertion A through that layer's builder and presented to that layer's parser with every A' of the catalogue; oracle: accept iff A' == A (none == empty). Plus ONE builder whose assertion is changed between builds (A, empty, B, blank, empty): each token opens with the assertion in force and with no other. Plus an assertion LENGTH sweep (0..=330, 65535..65537; same / one byte shorter / one byte longer / same length with the last byte or last eight bytes changed). Plus parser sessions (assertion changed between parses) and 160 (thorough 2000) NESTED pairs of them (two parser objects alive at once on one thread); the assertion supplied as footer instead; for 60 (thorough 400) random assertions of >= 12 base64-alphabet characters per protocol with a FIXED nonce: token length equal for none / A / A', A (raw and base64url at the three byte alignments) absent from the token text and decoded payload, nonce||ciphertext identical across assertions (local), tokens differ across assertions; re-split attack (F,A)->(F',A') with F||A == F'||A' at six split points, and across a LENGTH PREFIX (F' = F || len(A) || A[..d-8], A' = A[d..] with A[d-8..d] = LE64(|A'|), d in {128, 256, 32768, 65536}, len(A) written as LE64(|A|) and as LE64(|A|-d): collides iff the PAE length encoding is not injective). distinct_nontrivial = distinct (protocol, layer, class, built class, supplied class)";
+pub const RULE_C06: &str = "v3/v4 local/public x 3 layers x assertion catalogue (none, empty, 40 strings with near-miss pairs): a token is built with assertion A through that layer's builder and presented to that layer's parser with every A' of the catalogue; oracle: accept iff A' == A (none == empty). Plus swaps of the assertion with the footer ((footer X, no assertion) presented as (no footer, assertion X) and vice versa, with small, 9 000-byte and 70 000-byte messages). Plus ONE builder whose assertion is changed between builds (A, empty, B, blank, empty): each token opens with the assertion in force and with no other. Plus an assertion LENGTH sweep (0..=330, 65535..65537; same / one byte shorter / one byte longer / same length with the last byte or last eight bytes changed). Plus parser sessions (assertion changed between parses) and 160 (thorough 2000) NESTED pairs of them (two parser objects alive at once on one thread); the assertion supplied as footer instead; for 60 (thorough 400) random assertions of >= 12 base64-alphabet characters per protocol with a FIXED nonce: token length equal for none / A / A', A (raw and base64url at the three byte alignments) absent from the token text and decoded payload, nonce||ciphertext identical across assertions (local), tokens differ across assertions; re-split attack (F,A)->(F',A') with F||A == F'||A' at six split points, and across a LENGTH PREFIX (F' = F || len(A) || A[..d-8], A' = A[d..] with A[d-8..d] = LE64(|A'|), d in {128, 256, 32768, 65536}, len(A) written as LE64(|A|) and as LE64(|A|-d): collides iff the PAE length encoding is not injective). distinct_nontrivial = distinct (protocol, layer, class, built class, supplied class)";
 
 // ==========================================================================================
 // C07
@@ -1647,7 +1654,10 @@ pub fn run_c07(tier: &str, seed: u64) -> Report {
             // message lengths: the bodies of foreign tokens line up with Y's nonce/tag/signature layout at particular lengths
             // (empty, 16, 24, 32, 40, 48, 64 ... bytes), so those are driven explicitly besides JSON messages
             const EDGE: [usize; 16] = [0, 1, 16, 24, 32, 40, 48, 64, 80, 96, 160, 192, 208, 256, 300, 1000];
+            // ... and a few LARGE JSON messages (beyond any size threshold that switches to another verification path)
+            const LARGE: [usize; 5] = [4200, 9000, 65_500, 65_536, 70_000];
             let msg = match t % 3 {
+                0 if t % 18 == 0 => format!("{{\"pad\":\"{}\",\"exp\":\"2999-01-01T00:00:00+00:00\"}}", "p".repeat(LARGE[(t / 18) % LARGE.len()])),
                 0 => JSON_MSG.to_string(),
                 1 => "x".repeat(EDGE[(t / 3) % EDGE.len()]),
                 _ => format!("{{\"n\":\"{}\"}}", "m".repeat(t * 7 % 150)),
@@ -1735,4 +1745,4 @@ pub fn replay_c07(case: &Value) -> Report {
     r
 }
 
-pub const RULE_C07: &str = "all 56 ordered pairs (X,Y) of the 8 protocols (exhaustive) x 90 (thorough 3000) authentic X tokens (footer none/text, assertion none/text; JSON messages and messages of 0,1,16,24,32,40,48,64,80,96,160,192,208,256,300,1000 bytes so that foreign bodies line up with (or exceed) Y's nonce/tag/signature layout), each first opened by its own protocol, x {verbatim, header text rewritten to Y's} x {core, generic, batteries} entry points of Y, with key material shared wherever the types allow (same 32 bytes for v1-v4 local, same Ed25519 pair for v2/v4 public, symmetric key bytes reused as Ed25519 public key and as P-384 x-coordinate, public key bytes reused as symmetric key) and Y's own pool key otherwise; oracle: any Ok is a violation. distinct_nontrivial = distinct (X, Y, layer, verbatim|relabelled + key class, rejection variant)";
+pub const RULE_C07: &str = "all 56 ordered pairs (X,Y) of the 8 protocols (exhaustive) x 90 (thorough 3000) authentic X tokens (footer none/text, assertion none/text; JSON messages (incl. large ones of 4 200 .. 70 000 bytes) and messages of 0,1,16,24,32,40,48,64,80,96,160,192,208,256,300,1000 bytes so that foreign bodies line up with (or exceed) Y's nonce/tag/signature layout), each first opened by its own protocol, x {verbatim, header text rewritten to Y's} x {core, generic, batteries} entry points of Y, with key material shared wherever the types allow (same 32 bytes for v1-v4 local, same Ed25519 pair for v2/v4 public, symmetric key bytes reused as Ed25519 public key and as P-384 x-coordinate, public key bytes reused as symmetric key) and Y's own pool key otherwise; oracle: any Ok is a violation. distinct_nontrivial = distinct (X, Y, layer, verbatim|relabelled + key class, rejection variant)";
